@@ -20,14 +20,18 @@
 #endif
 #define RLEN 2      /* record bytes: 1..RLEN, symbolic */
 #define MAXEV 24
-enum { EV_LOCK = 1, EV_UNLOCK, EV_READLEN, EV_WRITE, EV_FLUSH, EV_START };
+enum { EV_LOCK = 1, EV_UNLOCK, EV_READLEN, EV_WRITE, EV_FLUSH, EV_START, EV_SETLEN, EV_TRYLOCK };
 struct ev { u8 kind; u8 byte; u8 rec; u32* mtx; };
 static struct ev evs[NTHR][MAXEV]; static u32 nev[NTHR]; static u32 cur; static u32 ev_overflow;
 static void rec_ev(u8 k, u8 b, u32* m) { if (nev[cur] >= MAXEV) { ev_overflow = 1; return; } evs[cur][nev[cur]].kind = k; evs[cur][nev[cur]].byte = b; evs[cur][nev[cur]].mtx = m; nev[cur]++; }
 void __vstd_mutex_lock(u32* m) { rec_ev(EV_LOCK, 0, m); }
 void __vstd_mutex_unlock(u32* m) { rec_ev(EV_UNLOCK, 0, m); }
 void __vstd_shared_put(u32 which, u8 ch) { (void)which; rec_ev(EV_READLEN, 0, 0); rec_ev(EV_WRITE, ch, 0); }
-void __vstd_shared_flush(u32 which) { (void)which; rec_ev(EV_FLUSH, 0, 0); }
+/* flush of the deliberately non-thread-safe device: reads the length and writes it back (harmless under the lock, loses bytes when it
+   interleaves with another thread's append) */
+void __vstd_shared_flush(u32 which) { (void)which; rec_ev(EV_READLEN, 1, 0); rec_ev(EV_SETLEN, 0, 0); }
+/* try_lock: the outcome is chosen nondeterministically while the thread body is extracted and later forced to agree with the schedule */
+u32 __vstd_mutex_try_lock(u32* m) { u32 got = in_range(0, 1); rec_ev(EV_TRYLOCK, (u8)got, m); return got; }
 void hook_record_start(u32 k) { rec_ev(EV_START, (u8)k, 0); }
 
 int main(void)
@@ -44,7 +48,8 @@ int main(void)
         }
     }
     /* phase 1: per-thread event extraction from the real code */
-    for (u32 t = 0; t < NTHR; ++t) { cur = t; thread_body(KIND, nrec[t], recs[t][0], recs[t][1 % MAXREC]); }
+    u32 sev[NTHR][2]; for (u32 t = 0; t < NTHR; ++t) { sev[t][0] = in_range(0, 5); sev[t][1] = in_range(0, 5); }   /* every severity, also fatal */
+    for (u32 t = 0; t < NTHR; ++t) { cur = t; thread_body(KIND, nrec[t], recs[t][0], recs[t][1 % MAXREC], sev[t][0], sev[t][1]); }
     CHECK(!ev_overflow, "C09 (harness): event list large enough");
     /* phase 2: every interleaving */
     u8 dev[NTHR * MAXREC * RLEN + 2]; u32 dev_len = 0; u32 latched[NTHR]; u32 pc[NTHR]; u32* held = 0;
@@ -63,6 +68,9 @@ int main(void)
         if (e.kind == EV_LOCK) held = e.mtx;
         else if (e.kind == EV_UNLOCK) { if (held == e.mtx) held = 0; }
         else if (e.kind == EV_START) { currec[t] = e.byte; started[t] = 0; }
+        else if (e.kind == EV_TRYLOCK) { ASSUME((e.byte != 0) == (held == 0 || held != e.mtx)); if (e.byte) held = e.mtx; }
+        else if (e.kind == EV_SETLEN) { dev_len = latched[t]; }
+        else if (e.kind == EV_READLEN && e.byte == 1) { latched[t] = dev_len; }
         else if (e.kind == EV_READLEN) { latched[t] = dev_len; if (!started[t]) { started[t] = 1; if (norder < NTHR * MAXREC) { order_t[norder] = t; order_k[norder] = currec[t]; } norder++; } }
         else if (e.kind == EV_WRITE) { if (latched[t] < sizeof dev) dev[latched[t]] = e.byte; dev_len = latched[t] + 1; }
     }
